@@ -68,9 +68,9 @@ func newAcc() *acc {
 	}
 }
 
-func (a *acc) eval(n int)           { a.evals += int64(n) }
-func (a *acc) class(k string)       { a.classes[k] = struct{}{} }
-func (a *acc) event(k string)       { a.events[k]++ }
+func (a *acc) eval(n int)               { a.evals += int64(n) }
+func (a *acc) class(k string)           { a.classes[k] = struct{}{} }
+func (a *acc) event(k string)           { a.events[k]++ }
 func (a *acc) eventN(k string, n int64) { a.events[k] += n }
 func (a *acc) sample(v any) {
 	if len(a.samples) < 2 {
@@ -98,6 +98,9 @@ func (a *acc) flush(r *mon.Run) {
 	sort.Strings(ks)
 	for _, k := range ks {
 		r.Class(k)
+		if dumpClasses {
+			fmt.Println("CLASS", k)
+		}
 	}
 	for k, n := range a.events {
 		r.EventN(k, n)
@@ -161,5 +164,8 @@ func runTasks(r *mon.Run, n int, f func(task int, a *acc)) {
 		r.Violation(r.ID+":unguarded-panic", p, nil)
 	}
 }
+
+// dumpClasses (diagnostic): print every class key as it is flushed.
+var dumpClasses = os.Getenv("WIRE_DUMP_CLASSES") != ""
 
 func hexs(b []byte) string { return mon.Hex(b) }
